@@ -395,7 +395,33 @@ def run(res):
                 failures.append((sc, r, sc["_d43_hit"]))
     if envfail * 3 > len(scs):
         raise vlib.CheckError("%d of %d rebalancing scenarios could not start or stabilise (environment)" % (envfail, len(scs)))
-    for sc, r, v in failures[:5]:
+    # A failure of a whole-cluster scenario is reported when it shows again in one of three re-runs of the same scenario:
+    # scenarios on real clusters depend on memberlist, ports and scheduling, and a single unrepeatable failure cannot be
+    # told from such an incident (it is counted and described in the evidence instead).
+    confirmed, unrepeated = [], []
+    for sc, r, v in failures[:8]:
+        again = None
+        for attempt in range(3):
+            s2 = {kk: vv for kk, vv in sc.items() if kk not in ("_d40", "_d43_hit")}
+            r2 = memberlib.run_membership([s2])[s2["id"]]
+            if r2.get("env", {}).get("error") or r2.get("env", {}).get("flapped") or len(r2["obs"]) < len(s2["ops"]):
+                continue
+            if s2.get("_crash") and vlib.match_known(PID, {"kind": "copies-colocated-on-lost-member"}):
+                ks, _ = colocated_keys(s2, r2["obs"])
+                if ks:
+                    s2["_d40"] = ks
+            v2 = judge(s2, r2["obs"])
+            if v2 and v2[0] != "env":
+                again = (s2, r2, v2)
+                break
+        if again:
+            confirmed.append(again)
+        else:
+            unrepeated.append({"scenario_id": sc["id"], "cluster": sc["cluster"], "verdict": v[1], "failed_step": v[0]})
+    res.coverage["unrepeated_failures"] = unrepeated
+    for u in unrepeated:
+        vlib.log("[c03] note: scenario %s failed once (%s) and passed 3 re-runs; not reported" % (u["scenario_id"], u["verdict"][:120]))
+    for sc, r, v in confirmed[:5]:
         k = sc["ops"][v[0]].get("k")
         mini = [o for o in sc["ops"][:v[0] + 1] if o.get("k") == k or o["op"] in ("join", "push", "balance", "waitstable", "stop")]
         res.violation({"kind": "impl-violates-property", "cluster": sc["cluster"], "scenario": {"ops": sc["ops"]}, "ops_on_failing_key": mini[-30:],
